@@ -410,6 +410,56 @@ theorem bigrat_root_exact_iff (f : Nat) (x n : BigRat) (wx : OKQ x) (hxn : x.neg
     rw [hv]
     exact ratRoot_exact_iff _ _ _ h1 hnum (Nat.pos_of_ne_zero wx.2) hco v e' hroot
 
+/-- **`BigRat::pow` with a fractional exponent refines `ratPow`**: for a non-negative base in lowest terms and a positive
+exponent p/q in lowest terms with q ≥ 2 (the integer case is C01's `rat_pow_nonneg_int`), value and exactness flag agree -/
+theorem bigrat_pow_refines (f : Nat) (x e : BigRat) (wx : OKQ x) (hxn : x.neg = false) (we : OKQ e) (hen : e.neg = false)
+    (hcx : Nat.Coprime (val x.num) (val x.den)) (hce : Nat.Coprime (val e.num) (val e.den))
+    (hq2 : val e.den ≠ 1) (hqB : val e.den < B) (hpB : val e.num < B) (h00 : ¬ (val x.num = 0 ∧ val e.num = 0)) :
+    match Root.ratPow (val x.num) (val x.den) false (val e.num) (val e.den) with
+    | some (v, ex) => ∃ r, BigRat.pow (f + 2) x e = .ok (r, ex) ∧ valQ r = v
+    | none => ∃ er, BigRat.pow (f + 2) x e = .error er := by
+  obtain ⟨x', hsx, _, wx', dx', hnx, hnumx, hdenx⟩ := simplify_spec x wx.1 wx.2
+  obtain ⟨e', hse, _, we', de', hne, hnume, hdene⟩ := simplify_spec e we.1 we.2
+  rw [Nat.Coprime.gcd_eq_one hcx, Nat.div_one] at hnumx hdenx
+  rw [Nat.Coprime.gcd_eq_one hce, Nat.div_one] at hnume hdene
+  have hx'neg : x'.neg = false := by rw [hnx, hxn]
+  have he'neg : e'.neg = false := by rw [hne, hen]
+  have hden1 : denIsOne e' = false := by
+    cases h : denIsOne e' with
+    | false => rfl
+    | true => exact absurd (by rw [← hdene]; exact (denIsOne_iff e' we'.2).mp h) hq2
+  have heven := isEven_val e'.num we'.1
+  obtain ⟨_, _, p3⟩ := pow_spec x'.num e'.num wx'.1 we'.1
+  obtain ⟨_, _, q3⟩ := pow_spec x'.den e'.num wx'.2 we'.1
+  rw [hnumx, hnume] at p3
+  rw [hdenx, hnume] at q3
+  obtain ⟨pn, hpn, hpnv, hpnw⟩ := p3 h00 (Or.inr hpB)
+  obtain ⟨pd, hpd, hpdv, hpdw⟩ := q3 (fun h => wx.2 h.1) (Or.inr hpB)
+  have hpd0 : val pd ≠ 0 := by rw [hpdv]; exact pow_ne_zero _ wx.2
+  have hres : OKQ (⟨false, pn, pd⟩ : BigRat) := ⟨⟨hpnw, hpdw⟩, hpd0⟩
+  have wn : WFQ (⟨false, e'.den, small 1⟩ : BigRat) := ⟨we'.2, by show 1 < B; decide⟩
+  have hi : IntExp (⟨false, e'.den, small 1⟩ : BigRat) := ⟨by show (1 : Nat) ≠ 0; decide, by show (1 : Nat) ∣ val e'.den; exact Nat.one_dvd _⟩
+  have hexp : expN (⟨false, e'.den, small 1⟩ : BigRat) = val e.den := by show val e'.den / 1 = _; rw [Nat.div_one, hdene]
+  have hq1 : 1 ≤ val e.den := Nat.one_le_iff_ne_zero.mpr we.2
+  have hr := bigrat_root_refines f ⟨false, pn, pd⟩ ⟨false, e'.den, small 1⟩ hres rfl wn hi rfl (by rw [hexp]; exact hq1) (by rw [hexp]; exact hqB)
+  rw [hexp] at hr
+  have hunf : BigRat.pow (f + 2) x e = BigRat.rootN (BigRat.pow (f + 1)) ⟨false, pn, pd⟩ ⟨false, e'.den, small 1⟩ := by
+    conv_lhs => unfold BigRat.pow
+    simp [hsx, hse, hx'neg, he'neg, hden1, heven, hpn, hpd, bind, Except.bind]
+  rw [hunf]
+  simp only [Root.ratPow, hq2, if_false]
+  show match (match Root.ratRoot (val x.num ^ val e.num) (val x.den ^ val e.num) (val e.den) with
+      | none => none
+      | some (v, e) => if false = true then some (1 / v, e) else some (v, e)) with
+    | some (v, ex) => _
+    | none => _
+  have hvn : val (⟨false, pn, pd⟩ : BigRat).num = val x.num ^ val e.num := hpnv
+  have hvd : val (⟨false, pn, pd⟩ : BigRat).den = val x.den ^ val e.num := hpdv
+  rw [hvn, hvd] at hr
+  cases hroot : Root.ratRoot (val x.num ^ val e.num) (val x.den ^ val e.num) (val e.den) with
+  | none => rw [hroot] at hr; exact hr
+  | some ve => obtain ⟨v, ex⟩ := ve; rw [hroot] at hr; exact hr
+
 end
 
 end Fend.C03
